@@ -111,6 +111,10 @@ def _check_read_fasta(fasta, case, direct):
     missed, mn, mx, clip, semi = case["missed"], case["min"], case["max"], case["clip"], case["semi"]
     other = seq[len(seq) // 2:] + "GASTK" + seq[:len(seq) // 3]
     entries = [("sp|T1|FIRST", seq), ("sp|T2|SECOND", other), ("decoy_sp|T1|FIRST", seq[::-1]), ("decoy_sp|T2|SECOND", other[::-1])]
+    if mn >= 2:
+        # a tiny entry that is a single peptide of exactly the minimal length and starts with M (a small ORF)
+        tiny = "M" + "W" * (mn - 1)
+        entries += [("sp|T3|TINY", tiny), ("decoy_sp|T3|TINY", "M" + "Y" * (mn - 1))]
     req, allowed = set(), set()
     for _, sq in entries:
         r, a = digest_ref(sq, pat, missed, mn, mx, clip, semi)
